@@ -399,16 +399,21 @@ func instrumentPackage(fset *token.FileSet, imp types.Importer, lp *listPkg, pi 
 
 		// 1. sync import
 		for _, is := range f.Imports {
-			if is.Path.Value == `"sync"` {
-				name := "sync"
-				if is.Name != nil {
-					name = is.Name.Name
-					add(off(is.Name.Pos()), int(is.Path.End()-is.Name.Pos()), name+` "verif/simrt/ssync"`)
-				} else {
-					add(off(is.Path.Pos()), int(is.Path.End()-is.Path.Pos()), `sync "verif/simrt/ssync"`)
-				}
-				rep.SyncFiles = append(rep.SyncFiles, rel)
+			var defName, target string
+			switch is.Path.Value {
+			case `"sync"`:
+				defName, target = "sync", "verif/simrt/ssync"
+			case `"sync/atomic"`:
+				defName, target = "atomic", "verif/simrt/satomic"
+			default:
+				continue
 			}
+			if is.Name != nil {
+				add(off(is.Name.Pos()), int(is.Path.End()-is.Name.Pos()), is.Name.Name+` "`+target+`"`)
+			} else {
+				add(off(is.Path.Pos()), int(is.Path.End()-is.Path.Pos()), defName+` "`+target+`"`)
+			}
+			rep.SyncFiles = append(rep.SyncFiles, rel+" ("+defName+")")
 		}
 
 		// parent map for statement lookup
@@ -644,6 +649,8 @@ func instrumentPackage(fset *token.FileSet, imp types.Importer, lp *listPkg, pi 
 			if p == "sync" {
 				p = "verif/simrt/ssync"
 				_ = needSync
+			} else if p == "sync/atomic" {
+				p = "verif/simrt/satomic"
 			}
 			impLines = append(impLines, fmt.Sprintf("\t%s %q\n", n, p))
 		}
